@@ -2,27 +2,42 @@ from config.common import NOTE_COMMON
 
 CONFIG = dict(
     pkg="c26", level="exploration",
-    technique=("rapid property test: generated routing tables, request sequences, restarts and mutated tables against a "
-               "record-keeping model of successful opens, behavioural marker-key isolation checks and a determinism relation "
+    technique=("rapid property test: generated routing tables, open/drop histories before and after a restart and mutated tables "
+               "against a record-keeping model of the requests currently recorded per database (successful opens minus dropped "
+               "databases), behavioural marker-key isolation checks and a determinism relation "
                "over 24 freshly constructed producers; native fuzzing (rapid.MakeFuzz) over template/request strings"),
     level_text=("Routing tables (default route, exact routes with nested paths, %d/%s pattern routes with one and two ops, "
                 "overlapping patterns, tables from a small alphabet) over flaggedproducer/plain producers are sampled together "
-                "with request sequences with repeats, a restart over the same databases and a mutated table; a second unit and "
+                "with two request histories with repeats (before and after a restart over the same databases) in which a step may "
+                "Close+Drop the database of the request just opened (NoDrop and droppable routes, databases shared by several "
+                "requests, re-open with the same producer and after the restart), a mutated table probed with Verify() right "
+                "after the restart and another one at the end; a second unit and "
                 "a 60 s native fuzz campaign draw arbitrary template/request strings."),
     level_note=NOTE_COMMON,
     rule=("Oracle: RouteOf equal across repeated calls, before/after opens and across 24 producers freshly built from the same "
-          "table; OpenDB refused exactly when the harness' own record of successful opens has a prefix-related table of another "
-          "request in the same (type,name) (or the type has no producer); marker keys written through one store are invisible "
-          "through every other store and sit in the raw backend database under (type,name,table) that RouteOf names; reopen on "
-          "the same and on a restarted producer reads the marker back; Verify() fails exactly when some recorded request is "
-          "routed to a different type, name or table by the (mutated) table, and when it passes every recorded request is still "
-          "reachable. Requests whose table is a non-empty prefix of a metadata key are skipped (precondition of the property). "
-          "Non-trivial = two recorded requests share a database, or a request is matched by >= 2 pattern routes, or the mutated "
-          "table moves a recorded request; distinct by hash of (table, requests, backends, mutated table)."),
+          "table; the model keeps the requests currently recorded per (type,name): a successful open records the request, "
+          "Close+Drop of a store of a route without NoDrop removes the records (and data) of every request of that database, "
+          "Drop through a NoDrop route changes nothing. OpenDB refused exactly when the model holds, at that time, a prefix-related "
+          "table of another request in the same (type,name) (or the type has no producer), so a request is accepted again in a "
+          "re-created database; a newly recorded request starts with an empty store, a dropped database holds no keys; marker "
+          "keys written through one store are invisible through every other store and sit in the raw backend database under "
+          "(type,name,table) that RouteOf names; reopen on the same and on a restarted producer reads the marker back (after the "
+          "restart every recorded request is re-opened, in an order independent of the first history); Verify() with the "
+          "unchanged table passes; Verify() of a (mutated) table, right after the restart and at the end, fails exactly when "
+          "some currently recorded request is routed to a different type, name or table, and when it passes every recorded "
+          "request is still reachable. Requests whose table is a non-empty prefix of a metadata key are skipped (precondition of "
+          "the property). Non-trivial = two recorded requests share a database, or a request is matched by >= 2 pattern routes, "
+          "or a mutated table moves a recorded request; distinct by hash of (table, both histories, backends, mutated tables). "
+          "Classes: history_with_drop (a database was really dropped), drop_then_reopen_same_producer, restart_after_drop, "
+          "restart_after_drop_and_reopen, drop_after_restart, drop_removes_records_of_2plus_requests, "
+          "drop_on_nodrop_route_is_noop, overlap_with_dropped_record_accepted; restart_probe_* = Verify() outcome of the "
+          "mutated table probed right after the restart."),
     assumptions=[
         "tables that are non-empty prefixes of the table-records key or of the flush-id key are excluded (property precondition)",
         "the expected Verify() answer uses RouteOf of the new producer for 'would now be routed' (RouteOf itself is checked for determinism)",
-        "databases are not dropped between the opens and Verify()",
+        "a database is dropped only through Close()+Drop() of a store returned by OpenDB, after every other store of the same (type,name) handed out by the producer was closed (a store of another request that is still open when its database is dropped is a caller error and is not generated); closed stores are never used again, the requests are re-opened",
+        "Drop through a store whose route has NoDrop is a no-op (data and records stay); Drop through any other store drops the whole (type,name) database, also for requests of that database whose own route has NoDrop",
+        "underlying producers are flaggedproducer over memorydb, flaggedproducer over a persistent logging store and that store directly; all support drop and re-creation of a database; a restart closes all stores and the producer (memorydb producers are not closed: a memorydb loses its content on Close)",
     ],
     units=[
         dict(test="TestC26Routing", quick=2500, thorough=480000, shards=16, env={"GOGC": "400"}),
